@@ -18,8 +18,41 @@ from alembic.runtime.migration import HeadMaintainer, MigrationContext
 
 from . import rev_impl
 
+class _custom_version_table:
+    """the documented DefaultImpl.version_table_impl() hook: a version table with a surrogate key in front of version_num
+    and a column behind it (the only contract is a string column named version_num).  Defining an impl class registers it
+    for the dialect name, so the stock one is put back on exit."""
+
+    def __init__(self, active):
+        self.active = active
+
+    def __enter__(self):
+        if not self.active:
+            return
+        from sqlalchemy import Column, Integer, MetaData, String, Table
+        from alembic.ddl import impl as impl_mod
+        from alembic.ddl.sqlite import SQLiteImpl
+
+        self.saved = impl_mod._impls["sqlite"]
+
+        class WideVersionTableImpl(SQLiteImpl):
+            __dialect__ = "sqlite"
+
+            def version_table_impl(self, *, version_table, version_table_schema, version_table_pk, **kw):
+                return Table(version_table, MetaData(), Column("id", Integer, primary_key=True),
+                             Column("version_num", String(32), nullable=False), Column("note", String(50)),
+                             schema=version_table_schema)
+
+    def __exit__(self, *a):
+        if self.active:
+            from alembic.ddl import impl as impl_mod
+
+            impl_mod._impls["sqlite"] = self.saved
+
+
 OPTION_SETS = [
     {},
+    {"custom_version_table": True},
     {"version_table": "my versions"},
     {"version_table_schema": "bookkeeping"},
     {"version_table_schema": "bookkeeping", "version_table": "Ver", "version_table_pk": False},
@@ -57,9 +90,13 @@ class CtxDb:
         self.conn.rollback()
         return r
 
+    def _opts(self):
+        return {k: v for k, v in self.opts.items() if k != "custom_version_table"}
+
     def set_rows(self, rows):
-        ctx = MigrationContext.configure(self.conn, opts=dict(self.opts))
-        ctx._ensure_version_table()
+        with _custom_version_table(self.opts.get("custom_version_table")):
+            ctx = MigrationContext.configure(self.conn, opts=self._opts())
+            ctx._ensure_version_table()
         self.conn.execute(text("delete from %s" % self._qualified()))
         for r in rows:
             self.conn.execute(text("insert into %s (version_num) values (:v)" % self._qualified()), {"v": r})
@@ -97,11 +134,11 @@ class CtxDb:
             trace.append({"rows": db, "stmts": [list(s) for s in stmts], "heads": sorted(str(h) for h in heads)})
             del stmts[:]
 
-        opts = dict(self.opts, fn=fn, script=sd, on_version_apply=(on_apply,))
+        opts = dict(self._opts(), fn=fn, script=sd, on_version_apply=(on_apply,))
         HeadMaintainer._insert_version, HeadMaintainer._delete_version, HeadMaintainer._update_version = ins, dele, upd
         err = None
         try:
-            with warnings.catch_warnings():
+            with warnings.catch_warnings(), _custom_version_table(self.opts.get("custom_version_table")):
                 warnings.simplefilter("ignore")
                 with rev_impl.alarm(10):
                     ctx = MigrationContext.configure(self.conn, opts=opts)
